@@ -1,5 +1,5 @@
 """Turns the harness's per-scenario process observations (<prefix>.proc.ndjson) into one JSON object per run
-for Trace_Process.tla: per-thread hook logs (main, sig, w1..wN) plus the outside observations."""
+for Trace_Process.tla: per-thread hook logs (main, sig, rep, w1..wN) plus the outside observations."""
 import json
 
 
@@ -10,7 +10,7 @@ def split_runs(path):
         e = json.loads(line)
         if e.get("ev") == "meta":
             cur = {"meta": {"n": e["n"], "hc": e["hc"], "client_stats": e["client_stats"], "id": e["id"], "source": e["source"]},
-                   "scenario": e.get("scenario", {}), "threads": {"main": [], "sig": []}, "other_threads": {}}
+                   "scenario": e.get("scenario", {}), "threads": {"main": [], "sig": [], "rep": []}, "other_threads": {}}
             for w in range(1, e["n"] + 1):
                 cur["threads"]["w%d" % w] = []
         elif cur is None:
@@ -25,6 +25,8 @@ def split_runs(path):
                 cur["threads"]["main"].append(ev)
             elif t == "ctrl-c":
                 cur["threads"]["sig"].append(ev)
+            elif t == "stats-reporting":
+                cur["threads"]["rep"].append(ev)
             elif t.startswith("worker-") and t[7:].isdigit() and int(t[7:]) + 1 <= cur["meta"]["n"]:
                 cur["threads"]["w%d" % (int(t[7:]) + 1)].append(ev)
             else:
